@@ -214,9 +214,10 @@ def configs(tier):
             ("tp=tcp,target=a,c0=r:ga,rel=0", 2), ("tp=tcp,target=a,c0=r:ga,rel=3,pumpn=256", 2),
             ("tp=tcp,target=a,c0=r:Xg,rel=2,svc=none", 1), ("tp=tcp,target=srv,c0=x:ag,c1=r:t,rel=0", 1),
             ("tp=tcp,target=b,c0=r:ng,rel=3", 1), ("tp=ux,target=srv,big=0,c0=r:gg,rel=0,pumpn=256", 1),
-            ("tp=ux,target=b,big=1,c0=r:g,c1=r:k,c2=r:x,rel=99", 1), ("tp=tcp,target=a,c0=r:g,c1=r:m,c2=x:g,rel=3", 1),
+            ("tp=ux,target=b,big=1,c0=r:g,c1=r:k,c2=r:x,rel=99", 1), ("tp=tcp,target=a,c0=r:g,c1=r:m,c2=x:g,rel=3", 0),
+            ("tp=tcp,target=a,c0=r:g,c1=r:m,c2=x:g,rel=99", 1),
             ("tp=tcp,target=a,c0=r:ga,c1=r:kg,c2=r:xn,rel=99", 0), ("tp=tcp,target=a,c0=r:g,c1=r:k,rel=3", 1),
-            (s5 + ",c0=r:gl,rel=3", 1), (s5 + ",c0=x:kg,c1=r:zg,rel=0", 1),
+            (s5 + ",c0=r:gl,rel=3", 1), (s5 + ",c0=x:kg,c1=r:zg,rel=0", 0), (s5 + ",c0=x:kg,c1=r:zg,rel=99", 1),
             (rsa + ",c0=r:g,c1=r:b,rel=99", 1), (rsa + ",c0=r:bg,rel=3,pumpn=256", 1),
         ]
         c += [(p, d, "asan") for p, d in sched]
